@@ -11,7 +11,7 @@ from vlib.core import Broken, Mismatch, Failing
 
 ID = 'C06'
 LEVEL = 'proof'
-THEORIES = ['theories/L1Circuits/CircuitsProofs.vo',
+THEORIES = ['theories/L1Circuits/CircuitsProofs.vo', 'theories/L2Compile/AcceptProofs.vo',
             'theories/L2Compile/CompileProofs.vo',
             'theories/L2Compile/Check.vo']
 
@@ -286,8 +286,8 @@ def build_cases(ctx):
     thorough = ctx.thorough
     maxw = 5 if thorough else 4
     cases = corpus_cases() + list(fol_gen.sweep_cases(rng, maxw))
-    n_rand = 12000 if thorough else 700
-    n_rej = 1500 if thorough else 160
+    n_rand = 20000 if thorough else 700
+    n_rej = 2000 if thorough else 160
     max_bits = 11 if thorough else 9
     for _ in range(n_rand):
         cases.append(fol_gen.random_case(rng, maxw, max_bits))
